@@ -300,6 +300,16 @@ func runC07(c *Ctx) {
 			extra = append(extra, gal.Pair(gal.S(string(b)), gal.B(t)))
 			extraD = append(extraD, [2]any{string(b), t})
 		}
+		// URL-looking text after '?' and '#' (scheme separators, authorities, a second path)
+		for _, p := range []string{"/a", "/b", "/ab", "/a.a", ""} {
+			for _, tail := range []string{"?n=http://h/a", "?n=s://b/a.a", "#x://h/b", "#http://h/ab?q#r", "?u=//h/a", "#//b"} {
+				tgt := p + tail
+				t := triggered07(rules, tgt)
+				c.Sum.Evaluations++
+				extra = append(extra, gal.Pair(gal.S(tgt), gal.B(t)))
+				extraD = append(extraD, [2]any{tgt, t})
+			}
+		}
 		var tbl []string
 		for txt, g := range g.table {
 			tbl = append(tbl, gal.Pair(gal.S(txt), g))
